@@ -228,7 +228,13 @@ public:
     /**
      * @return The maximum capacity of this cache.
      */
-    auto capacity() const -> size_t { return m_open_list.size(); }
+    auto capacity() const -> size_t
+    {
+        // std::list::splice() modifies the list's size field (even for a same-list splice), so reading it needs the
+        // lock.
+        std::lock_guard guard{m_lock};
+        return m_open_list.size();
+    }
 
 private:
     struct element
